@@ -73,11 +73,17 @@ type ImageResult struct {
 	Probe   string // non-empty: the operational probe failed
 }
 
+// Progress, if set, is called whenever a check makes progress (hang watchdog).
+var Progress func()
+
 // CheckImage opens a disk image and determines which of the allowed states it
 // exposes. With probe it also runs a write transaction afterwards and verifies
 // the recovered state is unchanged by it.
 func CheckImage(img []byte, opts txfile.Options, allowed []SpecState, probe bool) (res ImageResult) {
 	res.Match = -1
+	if Progress != nil {
+		Progress()
+	}
 	if c := chainCycle(img); c != "" {
 		// opening would never return (and exhaust memory): report instead of calling Open
 		res.Panic = "open would hang: " + c
